@@ -160,7 +160,7 @@ SIMPLE = [
     "[[ $@V@ =~ } ]]", "[[ $@V@ == *}* ]]", "[[ $@V@ =~ ^\\{.*\\}$ ]]", '[[ $@V@ == "(" ]]', "[[ $@V@ < $y ]]",
     "[[ -n $@V@ && $y != \\) ]]", "[[ $@V@ =~ [[:space:]]#.* ]]", "[ \"$@V@\" = '}' ]", "[[ $@V@ == @(a|b) ]]",
     # arrays / assignments inside functions
-    'local -a arr=(a "}" \\) )', 'arr+=("{")', 'arr=( [0]="(" [1]=\'}\' )', 'declare -A m=([k]="}")', "@V@=$y", "@V@=",
+    'local -a arr=(a "}" \')\' )', 'arr+=("{")', 'arr=( [0]="(" [1]=\'}\' )', 'declare -A m=([k]="}")', "@V@=$y", "@V@=",
     "local @V@=\"$1\" y='}' z", "@V@=( $(echo a b) )", "@V@=${y}${z:-\\}}", "export @V@=$'}'", "@V@+=\\}",
     # redirections / here-strings / process substitution
     "read @V@ <<< \"}\"", "read @V@ <<< '{'", "read @V@ <<<$y", "cat < <(echo \"}\")", "echo hi >&2", "echo hi > /dev/null 2>&1",
@@ -329,8 +329,6 @@ def fragment(rng, depth=0, excl=frozenset(), sctx="top"):
             kind, s = "C", rng.choice(CASES)
         else:
             kind, s = "S", rng.choice(SIMPLE)
-        if sctx == "comsub" and "\\) )" in s:
-            continue          # bash itself rejects `$( local -a arr=(a "}" \) ) )`
         if excl and excluded(s, kind, sctx, excl):
             continue
         tags = set()
